@@ -213,7 +213,8 @@ Init ==
                             /\ opts \in [compress : BOOLEAN, subset : BOOLEAN]
                             /\ info \in RandomSubset(2, AllProfiles) /\ infoAt \in {0, 1}
        [] Gen = "info" ->   /\ prog = [i \in 1..L |-> IF i = 1 THEN Call("path", 1, 0, 0, 1) ELSE Skip]
-                            /\ opts \in {OneTrue(TRUE), OneTrue(FALSE)} /\ info \in InfoSweep /\ infoAt \in {0, 1}
+                            /\ opts \in (IF NRand = 0 THEN {OneTrue(TRUE)} ELSE {OneTrue(TRUE), OneTrue(FALSE)})
+                            /\ info \in InfoSweep /\ infoAt \in {0, 1}
        [] OTHER ->          /\ prog \in {p \in Progs : Canonical(p)} /\ opts \in {OneTrue(TRUE)} /\ info = Mixed /\ infoAt = 0
 Next == DoPath \/ DoLink \/ DoImageNew \/ DoImageShared \/ DoTextStd \/ DoTextH \/ DoTextV \/ DoNewPage \/ Close
 Spec == Init /\ [][Next]_vars
